@@ -1202,6 +1202,59 @@ out:
 		}
 }
 
+/* S10b: https_request whose connection is refused (TLS is never started) */
+static int
+refuse_connect(int fd, const struct sockaddr * sa, socklen_t len)
+{
+
+	(void)fd; (void)sa; (void)len;
+	errno = ECONNREFUSED;
+	return (-1);
+}
+
+static void
+s_https(void)
+{
+	struct sock_addr sa, * sas[3];
+	struct sockaddr_in sin;
+	struct http_header hd[2] = { { "Host", "example.org" }, { "X-A", "b" } };
+	struct http_request req = { "POST", "/y", 2, hd, 100, NULL };
+	static uint8_t body[100];
+	uint64_t nf = NF();
+	void * c;
+	int err, k;
+
+	req.body = body;
+	memset(&sin, 0, sizeof(sin));
+	sin.sin_family = AF_INET;
+	sin.sin_port = htons(443);
+	sa.ai_family = AF_INET; sa.ai_socktype = SOCK_STREAM;
+	sa.name = (struct sockaddr *)&sin; sa.namelen = sizeof(sin);
+	sas[0] = &sa; sas[1] = vh_chance(&R, 1, 2) ? &sa : NULL; sas[2] = NULL;
+	hres.ncb = hres.ok = 0;
+	simk_connect_hook = refuse_connect;
+	c = https_request(sas, &req, 100000, http_cb, NULL, "example.org");
+	if (c == NULL) {
+		if (NF() == nf)
+			viol("https:spurious-failure", "https_request refused without a refused allocation");
+		goto out;
+	}
+	err = finish(&hres.ncb, 20000000);
+	if (hres.ncb > 1)
+		viol("https:callback-count", "callback ran %d times", hres.ncb);
+	if (hres.ncb == 0 && !err)
+		viol("https:no-callback", "neither callback nor loop failure");
+	if (hres.ok)
+		viol("https:response-from-nowhere", "a response was delivered although every connection was refused");
+out:
+	simk_connect_hook = NULL;
+	for (k = 0; k < 64; k++)
+		if (simk_get(k) != NULL && !simk_get(k)->closed) {
+			viol("https:socket-leaked", "descriptor %d left open", k);
+			simk_closefd(k);
+		}
+}
+
 /* S11: string / address helpers and request signing */
 static void
 s_util(void)
@@ -1362,7 +1415,7 @@ struct scenario {
 	{ "array", s_array }, { "queue", s_queue }, { "map", s_map },
 	{ "heap", s_heap }, { "timerqueue", s_timerq }, { "events", s_events },
 	{ "netio", s_netio }, { "connect", s_connect }, { "netbuf", s_netbuf },
-	{ "http", s_http }, { "util", s_util }, { "pool", s_pool },
+	{ "http", s_http }, { "https", s_https }, { "util", s_util }, { "pool", s_pool },
 };
 #define NSCEN (sizeof(scenarios) / sizeof(scenarios[0]))
 
